@@ -3,6 +3,7 @@ package mxj
 func init() {
 	vHarnesses["H_C17_pure_query"] = H_C17_pure_query
 	vHarnesses["H_C17_pure_encode"] = H_C17_pure_encode
+	vHarnesses["H_C17_pure_indexed"] = H_C17_pure_indexed
 	vHarnesses["H_C17_copy"] = H_C17_copy
 	vHarnesses["H_C17_footprint"] = H_C17_footprint
 }
@@ -45,6 +46,28 @@ func H_C17_pure_query() {
 	}
 	vAssertUnchangedSince(mark, "purity: a read-only query leaves its receiver deeply equal to what it was")
 	vCover("query")
+}
+
+// indexed paths with sub-key filters over lists of maps
+func H_C17_pure_indexed() {
+	vResetDecOpts()
+	d := 5
+	if vTier() == 1 {
+		d = 6
+	}
+	m := vNondetMap(vSpec{Depth: d, Width: 2, MapWidth: 1, Kinds: "mls", KeyAlpha: "a", KeyMin: 1, KeyMax: 1, StrAlpha: "xy", StrMin: 1, StrMax: 1, NoListInList: true})
+	mark := vMark(m)
+	sub := []string{"a:x", "!a:x", "a:*"}[vChoose(3)]
+	switch vChoose(3) {
+	case 0:
+		_, _ = Map(m).ValuesForPath("a[0].a", sub)
+	case 1:
+		_, _ = Map(m).ValuesForPath("a[1]", sub)
+	default:
+		_, _ = Map(m).ValuesForPath("a.a[0].a", sub)
+	}
+	vAssertUnchangedSince(mark, "purity: an indexed query with sub-keys leaves its receiver deeply equal to what it was")
+	vCover("indexed")
 }
 
 // encoders, Copy and StringIndent leave the receiver exactly as it was
